@@ -83,6 +83,20 @@ def run_prelude(kind: str) -> None:
 
     names = sum(_PRELUDE_MSGS.values(), []) if kind == "all" else _PRELUDE_MSGS[kind]
     ad = autodecoder.AutoDecoder()
+    if kind in ("kamstrup", "all"):
+        # lists carrying OBIS codes without a common name (the decoders refuse them today; whatever they do must leave no trace)
+        from han import aidon, kaifa, kamstrup
+
+        for cde in ("13.7.0", "33.7.0", "81.7.40", "96.14.0", "9.7.0"):
+            c_, d_, e_ = cde.split(".")
+            items = [(C.KAM_ID[0][0], "meter_id", "text", "1"), (f"1.1.{c_}.{d_}.{e_}.255", "active_power_import", "u32", 7)]
+            body, _, _ = C.kamstrup_body("Kamstrup_V0001", items, [0, 0, 0])
+            el = [("reg", f"1.0.{c_}.{d_}.{e_}.255", "u32", 7, 0, "W")]
+            for fn, payload in ((kamstrup.decode_notification_body, body), (aidon.decode_notification_body, C.aidon_body(el)[0]), (kaifa.decode_notification_body, bytes([2, 2]) + C.obis6(f"1.0.{c_}.{d_}.{e_}.255") + C.u32(7))):
+                try:
+                    fn(payload)
+                except Exception:  # noqa: BLE001
+                    pass
     for n in names:
         try:
             ad.decode_message_payload(GENUINE[n][0])
